@@ -58,6 +58,8 @@ func runC17(e *env) {
 		{"src", "pkg", "pkg1", "pkgs", "x"},
 		{"m", "mod", "model", "models", "mo"},
 		{"é", "a b", "a.b", "-", "_", "A", "a"},
+		// names extending one another with characters sorting before and after the separator
+		{"api", "api-v2", "api.v1", "api+x", "api0", "api_v2", "apis", "ap"},
 	}
 	nSets := 1500
 	if e.thorough() {
@@ -127,6 +129,8 @@ func runC17(e *env) {
 	addSet([]string{"/a", "/b"}, "corpus")
 	addSet([]string{"/a/b/c"}, "corpus")
 	addSet([]string{"/a/b", "/a/b"}, "corpus")
+	addSet([]string{"/x/api", "/x/api-v2", "/x/api/models"}, "corpus")
+	addSet([]string{"/x/api/models", "/x/api", "/x/api.v1/y", "/x/api+x"}, "corpus")
 	addSet(nil, "corpus_empty")
 	for i := 0; i < nSets; i++ {
 		pool := pools[e.r.intn(len(pools))]
@@ -172,7 +176,7 @@ func c17layouts(e *env) {
 	if e.thorough() {
 		nLayouts = 60
 	}
-	names := []string{"foo", "foo1", "foo2", "fo", "bar", "foobar", "sub", "sub1"}
+	names := []string{"foo", "foo1", "foo2", "fo", "bar", "foobar", "sub", "sub1", "foo-v2", "foo.old"}
 	var coqCases []string
 	var inputs []interface{}
 	cwd, _ := os.Getwd()
@@ -203,7 +207,7 @@ func c17layouts(e *env) {
 		}
 		var allFiles []string
 		for _, d := range dirs {
-			pkgName := filepath.Base(d)
+			pkgName := strings.NewReplacer("-", "_", ".", "_").Replace(filepath.Base(d)) // the directory name, as an identifier
 			nf := 1 + e.r.intn(2)
 			for k := 0; k < nf; k++ {
 				f := filepath.Join(modRoot, d, fmt.Sprintf("f%d.go", k))
